@@ -19,6 +19,8 @@ type pipe struct {
 	werr     error  // set when the write side is closed
 	rclosed  bool
 	wclosed  bool
+	rthread  int // managed thread that last read / wrote (0 = unknown, else id+1)
+	wthread  int
 }
 
 // PipeReader replaces io.PipeReader.
@@ -34,6 +36,15 @@ func Pipe() (*PipeReader, *PipeWriter) {
 }
 
 func (p *pipe) name() string { return vsched.NameOf(unsafe.Pointer(p), "pipe") }
+
+// peer names the thread at the other end: the one that last used it, else the most recent
+// child of the caller (the goroutine spawned to feed / drain the pipe), else none.
+func (p *pipe) peer(t *vsched.Thread, other int) int {
+	if other > 0 {
+		return other - 1
+	}
+	return vsched.LastChild(t)
+}
 
 func (p *pipe) readCloseError() error {
 	if p.rclosed {
@@ -52,11 +63,17 @@ func (p *pipe) writeCloseError() error {
 func (p *pipe) read(b []byte) (int, error) {
 	if t := vsched.Cur(); t != nil {
 		n := p.name()
-		t.Point("pipe.read", n, func() bool {
+		p.rthread = t.ID + 1
+		pred := func() bool {
 			big.Lock()
 			defer big.Unlock()
 			return p.wpending || p.rclosed || p.wclosed
-		}, vsched.Preemptible("pipe.read", n))
+		}
+		if vsched.Preemptible("pipe.read", n) {
+			t.Point("pipe.read", n, pred, true)
+		} else {
+			t.BlockPrefer("pipe.read", n, pred, p.peer(t, p.wthread))
+		}
 		big.Lock()
 	} else {
 		big.Lock()
@@ -65,12 +82,13 @@ func (p *pipe) read(b []byte) (int, error) {
 		}
 	}
 	defer big.Unlock()
-	if p.rclosed || p.wclosed {
-		// io.Pipe checks done first; a Write cannot be pending once the writer
-		// closed (Write returns before Close in the writing goroutine).
-		if !(p.wpending && !p.rclosed && len(p.wbuf) > 0) {
-			return 0, p.readCloseError()
-		}
+	if p.rclosed {
+		return 0, io.ErrClosedPipe
+	}
+	if !p.wpending {
+		// write side closed and nothing offered (a Write returns before its
+		// goroutine can close the writer, so no data is lost here)
+		return 0, p.werr
 	}
 	nr := copy(b, p.wbuf)
 	p.wbuf = p.wbuf[nr:]
@@ -86,6 +104,7 @@ func (p *pipe) write(b []byte) (int, error) {
 	var n string
 	if t != nil {
 		n = p.name()
+		p.wthread = t.ID + 1
 		t.Point("pipe.write", n, func() bool {
 			big.Lock()
 			defer big.Unlock()
@@ -109,11 +128,11 @@ func (p *pipe) write(b []byte) (int, error) {
 	big.Unlock()
 
 	if t != nil {
-		t.Point("pipe.write-wait", n, func() bool {
+		t.BlockPrefer("pipe.write-wait", n, func() bool {
 			big.Lock()
 			defer big.Unlock()
 			return !p.wpending || p.rclosed || p.wclosed
-		}, false)
+		}, p.peer(t, p.rthread))
 		big.Lock()
 	} else {
 		big.Lock()
